@@ -8,6 +8,9 @@ pub mod c03;
 pub mod c04;
 pub mod common;
 pub mod c07;
+pub mod c08;
+pub mod c12;
+pub mod c16;
 pub mod c18;
 pub mod crash;
 
@@ -20,6 +23,9 @@ pub fn all() -> Vec<Box<dyn Check>> {
         Box::new(crash::Crash { id: "C05" }),
         Box::new(crash::Crash { id: "C06" }),
         Box::new(c07::C07),
+        Box::new(c08::C08),
+        Box::new(c12::C12),
+        Box::new(c16::C16),
     ]
 }
 
